@@ -1,9 +1,44 @@
 /-
 C05 — property theorems: the footprint model of every kernel runs without fault (`Safe`: no access outside a
 buffer, no zero integer divisor, no integer overflow / unconvertible double, no exhausted fuel) under the
-kernel's precondition, for ALL lengths, contents and oracles.
-The preconditions are what the Cython asserts and the Python allocations establish (second part of the file:
-wrapper obligations over the generated `PyxSpec`).
+kernel's precondition, for ALL lengths, contents and oracles; the preconditions are what the Cython asserts and
+the Python allocations establish (wrapper obligations over the GENERATED `PyxSpec`).
+
+Clause → theorems → what stays outside (the same table is in harness/registry.d/C05.json, key "clauses"):
+
+1. "every Python entry point that reaches a compiled kernel" (quantifier)
+     `wrappers_covered` (the generated list of wrappers that call a kernel is exactly the 37 that have a
+     `<wrapper>_wrapper` theorem below; a wrapper added to a .pyx breaks it) + the harness' completeness check
+     (builder, `K_safe`, `_wrapper`, tightness cases per wrapper).  Outside: functions of the extension modules are
+     found by parsing the .pyx (translator trusted; it refuses what it cannot parse).
+2. "read or write outside the buffers they were given", all lengths incl. 0 and 1, all contents, all options
+     `aggregate_safe … delineateArea_safe` (37 `K_safe`, one per kernel: `Fault.oob` unreachable under `KernelPre`) and
+     the 37 `_wrapper` theorems (asserts ∧ PyAlloc ⇒ KernelPre of the actual call).  Outside: that the compiled
+     C text performs the model's accesses (run time: sanitizer outcome + exact-extent tightness probes); index
+     products of the `int` kernels below 2^31 and `NumpySize` are hypotheses.
+3. "divide an integer by zero"
+     `Fault.div0` unreachable: `accumulate_safe`, `slope_safe` (any `nprint`, 0 included), every kernel using
+     `getnxy` (`% ncols`, reached only with a cell of the grid, hence `ncols ≠ 0`), `voronoi_safe` (any grid size:
+     refused before), `inside_safe` (`nvertices ≥ 1` from the wrapper's column reduction), `combi_safe`,
+     `isleapyear_safe`.
+4. "overflow a signed integer" (and conversions of doubles)
+     `Fault.ovf` unreachable: `var2h_safe` (64-bit period start), `coord2cell_safe` / `slice_safe` /
+     `intersect_safe` (NaN, inf, huge coordinates never converted), `getdate_safe` + `getdate_rejects`,
+     `add1month_safe`, `add1day_safe` (year 2147483647), `combi_safe`, the i32 index products (hypotheses, see 2).
+5. "or otherwise bring the interpreter down"
+     `Fault.fuel` unreachable: `delineateArea_safe` (the unbounded `while` ends within `nval+1` layers),
+     `var2h_safe` (inner walk bounded by `nvalvar`); bounded loops are structural.  Outside: stalls / aborts of
+     anything else are only observed (worker time limits, abnormal exits).
+6. "input the kernels cannot handle is answered with a Python exception or the documented sentinel value"
+     the error return comes before ANY access (equalities valid for every extents function):
+     `aggregate_rejects_empty`, `flathomogen_rejects_empty`, `eckhardt_empty`, `eckhardt_rejects_badparam`,
+     `islin_empty`, `armodelSim_rejects_order`, `armodelResidual_rejects_order`, `ensrank_rejects_size`,
+     `voronoi_rejects`, `accumulate_rejects`, `delineateArea_rejects_nval`, `delineateBoundary_rejects_nval`,
+     `delineateBoundary_rejects_negative_cell`, `excludeZeroArea_rejects`, `neighbours_rejects_cell`,
+     `combi_sentinel`, `var2h_rejects_options`, `getdate_rejects`.  Outside: that the Python wrapper turns the
+     code into `ValueError` and validates lengths / options itself is compared at run time (return code class of
+     every recorded kernel call vs the model; an error code must surface as an exception), not modelled in Lean.
+Every theorem has a concrete instance of its hypotheses in the last section.
 -/
 import HydroVerif.Lemmas.C05
 import HydroVerif.Lemmas.C05Wrap
